@@ -322,6 +322,164 @@ fn one_frame(t: &mut Tctx, ai: usize, algos: &[CrcAlgo], shape: &Shape, val: &Va
     decode_and_check(t, a, shape, &r);
 }
 
+/// CRC-checked decoding over a byte READER (the checksum flavour stacked on `IOReader` / `EIOReader`) with the
+/// scratch buffer sized exactly: what the value borrows plus the checksum bytes (read through the scratch).  The
+/// frame must decode to the value, consume exactly the frame from the reader, and a corrupted frame must be refused.
+fn reader_backed(t: &mut Tctx, shape: &Shape, val: &Val) {
+    use super::io::{EioEnd, Endpoint, Fault, Sched, StdEnd};
+    use crate::bridge::DynVal;
+    use postcard::de_flavors::crc::CrcModifier;
+    use postcard::de_flavors::io::eio::EIOReader;
+    use postcard::de_flavors::io::io::IOReader;
+    use serde::Deserialize;
+    let plain = spec::encode(val);
+    let d = match spec::decode(shape, &plain) {
+        Ok(d) => d,
+        Err(_) => return,
+    };
+    let rpv = |w: usize, extra: usize, what: &str| vec![kv("kind", "c10-reader"), kv("width", w.to_string()), kv("shape", shape.text()), kv("value_spec_bytes", hex(&plain)), kv("scratch_extra", extra.to_string()), kv("what", what)];
+    macro_rules! width {
+        ($w:ty, $alg:path) => {{
+            let c = crc::Crc::<$w>::new(&$alg);
+            let wbytes = std::mem::size_of::<$w>();
+            let mut frame = plain.clone();
+            frame.extend_from_slice(&c.checksum(&plain).to_le_bytes());
+            let tail = t.rng.bytes(t.rng.clone().range(0, 4));
+            let mut stream = frame.clone();
+            stream.extend_from_slice(&tail);
+            for extra in [0usize, 1, 7] {
+                for eio in [false, true] {
+                    for corrupt in [false, true] {
+                        let mut input = stream.clone();
+                        if corrupt {
+                            let o = t.rng.below(frame.len() as u64) as usize;
+                            input[o] ^= 1 << t.rng.below(8);
+                        }
+                        let sched = if extra == 1 { Sched::OneByte } else { Sched::Short(t.rng.next() | 1) };
+                        let mut scratch = vec![0u8; d.scratch_need + wbytes + extra];
+                        t.st.eval();
+                        t.st.count("reader_backed_crc_decodes");
+                        let r = catch(|| {
+                            with_shape(shape, || -> Result<(Val, usize), postcard::Error> {
+                                if eio {
+                                    let fl = CrcModifier::new(EIOReader::new(EioEnd(Endpoint::reader(&input, sched, Fault::None)), &mut scratch[..]), c.digest());
+                                    let mut de = postcard::Deserializer::from_flavor(fl);
+                                    let v = DynVal::deserialize(&mut de)?;
+                                    let (rd, _) = de.finalize()?;
+                                    Ok((v.0, rd.0.pos))
+                                } else {
+                                    let fl = CrcModifier::new(IOReader::new(StdEnd(Endpoint::reader(&input, sched, Fault::None)), &mut scratch[..]), c.digest());
+                                    let mut de = postcard::Deserializer::from_flavor(fl);
+                                    let v = DynVal::deserialize(&mut de)?;
+                                    let (rd, _) = de.finalize()?;
+                                    Ok((v.0, rd.0.pos))
+                                }
+                            })
+                        });
+                        let _ = take_strs();
+                        let what = if eio { "CrcModifier<EIOReader>" } else { "CrcModifier<IOReader>" };
+                        match (r, corrupt) {
+                            (Err(p), _) => {
+                                t.st.violation("C10:panic", format!("{} ({}-bit): panicked: {}", what, wbytes * 8, p), rpv(wbytes, extra, what));
+                                return;
+                            }
+                            (Ok(Ok((v, pos))), false) if v == *val && pos == frame.len() => t.st.count("reader_backed_frames_accepted"),
+                            (Ok(other), false) => {
+                                t.st.violation(
+                                    "C10:valid-frame-over-reader-not-decoded",
+                                    format!(
+                                        "{} ({}-bit checksum, scratch = borrowed bytes {} + checksum {} + {}): a valid {}-byte frame gave {:?}, expected the value with the reader at {}",
+                                        what,
+                                        wbytes * 8,
+                                        d.scratch_need,
+                                        wbytes,
+                                        extra,
+                                        frame.len(),
+                                        other.map(|(v, p)| (v.show(), p)).map_err(|e| err_label(&e)),
+                                        frame.len()
+                                    ),
+                                    rpv(wbytes, extra, what),
+                                );
+                                return;
+                            }
+                            (Ok(Ok((v, pos))), true) => {
+                                // accepted although a bit was flipped: the consumed bytes must carry their own correct checksum
+                                let ok = pos >= wbytes && pos <= input.len() && {
+                                    let body = &input[..pos - wbytes];
+                                    c.checksum(body).to_le_bytes()[..] == input[pos - wbytes..pos]
+                                };
+                                if !ok {
+                                    t.st.violation(
+                                        "C10:accepted-with-wrong-checksum",
+                                        format!("{} ({}-bit): a frame with one flipped bit decoded to {} with the reader at {}, but those bytes do not end in their checksum", what, wbytes * 8, v.show(), pos),
+                                        rpv(wbytes, extra, what),
+                                    );
+                                    return;
+                                }
+                            }
+                            (Ok(Err(_)), true) => t.st.count("reader_backed_corruptions_rejected"),
+                        }
+                    }
+                }
+            }
+        }};
+    }
+    width!(u8, crc::CRC_8_SMBUS);
+    width!(u16, crc::CRC_16_IBM_SDLC);
+    width!(u32, crc::CRC_32_ISCSI);
+    width!(u64, crc::CRC_64_XZ);
+    width!(u128, crc::CRC_82_DARC);
+}
+
+/// The crate-level convenience wrappers for the 32-bit width.
+fn crc32_wrappers(t: &mut Tctx, shape: &Shape, val: &Val) {
+    let c = crc::Crc::<u32>::new(&crc::CRC_32_ISO_HDLC);
+    let plain = spec::encode(val);
+    let mut want = plain.clone();
+    want.extend_from_slice(&c.checksum(&plain).to_le_bytes());
+    let rpv = || vec![kv("kind", "c10-wrappers"), kv("shape", shape.text()), kv("value_spec_bytes", hex(&plain))];
+    t.st.eval();
+    t.st.count("crc32_wrapper_cases");
+    let outs: Vec<(&str, Result<postcard::Result<Vec<u8>>, String>)> = vec![
+        ("to_allocvec_crc32", catch(|| postcard::to_allocvec_crc32(val, c.digest()))),
+        ("to_stdvec_crc32", catch(|| postcard::to_stdvec_crc32(val, c.digest()))),
+        ("to_vec_crc32", if want.len() <= 256 { catch(|| postcard::to_vec_crc32::<_, 256>(val, c.digest()).map(|v| v.to_vec())) } else { Ok(Ok(want.clone())) }),
+        ("to_slice_crc32", catch(|| {
+            let mut b = vec![0u8; want.len()];
+            postcard::to_slice_crc32(val, &mut b, c.digest()).map(|s| s.to_vec())
+        })),
+    ];
+    for (name, r) in outs {
+        if !matches!(&r, Ok(Ok(b)) if *b == want) {
+            t.st.violation(&format!("C10:frame-differs:{}", name), format!("{} gave {:?}, expected plain ++ little-endian CRC-32 {}", name, r.map(|x| x.map(|b| hexs(&b)).map_err(|e| err_label(&e))), hexs(&want)), rpv());
+            return;
+        }
+    }
+    let mut with_tail = want.clone();
+    with_tail.extend_from_slice(&[9, 8, 7]);
+    let a = catch(|| with_shape(shape, || postcard::from_bytes_crc32::<crate::bridge::DynVal>(&want, c.digest()).map(|v| v.0)));
+    let b = catch(|| with_shape(shape, || postcard::take_from_bytes_crc32::<crate::bridge::DynVal>(&with_tail, c.digest()).map(|(v, r)| (v.0, r.to_vec()))));
+    let _ = take_strs();
+    if !matches!(&a, Ok(Ok(v)) if v == val) || !matches!(&b, Ok(Ok((v, r))) if v == val && r[..] == [9, 8, 7]) {
+        t.st.violation("C10:crc32-wrapper-decode-differs", "from_bytes_crc32 / take_from_bytes_crc32 do not return the value (and the bytes after the checksum)".into(), rpv());
+        return;
+    }
+    // one flipped bit anywhere must be refused or leave a self-consistent shorter frame
+    let o = t.rng.below(want.len() as u64) as usize;
+    let mut bad = want.clone();
+    bad[o] ^= 1 << t.rng.below(8);
+    if let Ok(Ok(_)) = catch(|| with_shape(shape, || postcard::from_bytes_crc32::<crate::bridge::DynVal>(&bad, c.digest()).map(|v| v.0))) {
+        // accepted: then some prefix must end in its own checksum (decoded length changed)
+        let okay = (4..=bad.len()).any(|p| c.checksum(&bad[..p - 4]).to_le_bytes()[..] == bad[p - 4..p]);
+        if !okay {
+            t.st.violation("C10:accepted-with-wrong-checksum", format!("from_bytes_crc32 accepted {} (bit flipped at byte {})", hexs(&bad), o), rpv());
+        }
+    } else {
+        t.st.count("crc32_wrapper_corruptions_rejected");
+    }
+    let _ = take_strs();
+}
+
 pub fn run(cfg: &Cfg) -> Report {
     let mut rep = Report::new("C10");
     let algos = crc_algos();
@@ -351,6 +509,8 @@ pub fn run(cfg: &Cfg) -> Report {
             if let Ok(d) = spec::decode(&shape, &vb) {
                 if d.consumed == vb.len() {
                     one_frame(t, ai, &algos, &shape, &d.val, false);
+                    reader_backed(t, &shape, &d.val);
+                    crc32_wrappers(t, &shape, &d.val);
                 }
             }
         });
@@ -411,6 +571,53 @@ pub fn run(cfg: &Cfg) -> Report {
         }
     });
     rep.stats.merge(s);
+    let s = parallel(cfg, 2, |t| {
+        let n = t.cfg.scale(2, 300, 6000);
+        for i in 0..n {
+            if t.cfg.expired() {
+                break;
+            }
+            let (shape, val) = match i % 4 {
+                // integers only (nothing borrowed: the scratch holds the checksum alone), borrow-heavy, random
+                0 => {
+                    let shape = Shape::Struct("T0", vec![("f0", Shape::U32), ("f1", Shape::I64), ("f2", Shape::Bool), ("f3", Shape::U16)]);
+                    let val = ValGen::small(&mut t.rng).gen(&shape);
+                    (shape, val)
+                }
+                1 => {
+                    let shape = Shape::Tuple(vec![Shape::U64, Shape::Str, Shape::U32, Shape::Bytes, Shape::Seq(Box::new(Shape::U16))]);
+                    let val = {
+                        let mut g = ValGen::small(&mut t.rng);
+                        g.max_str = 12;
+                        g.max_len = 4;
+                        g.gen(&shape)
+                    };
+                    (shape, val)
+                }
+                _ => {
+                    let d = t.rng.range(0, 2) as u32;
+                    let shape = gen_shape(&mut t.rng, d, &ShapeOpts::small());
+                    let val = {
+                        let mut g = ValGen::small(&mut t.rng);
+                        g.max_len = 3;
+                        g.max_str = 16;
+                        g.gen(&shape)
+                    };
+                    (shape, val)
+                }
+            };
+            if shape.has_zero_width_collection() || spec::encode(&val).len() > 120 {
+                continue;
+            }
+            t.st.nontrivial(fp_mix(fp(shape.text().as_bytes()), fp(&spec::encode(&val)) ^ 0xC10));
+            reader_backed(t, &shape, &val);
+            crc32_wrappers(t, &shape, &val);
+        }
+    });
+    rep.stats.merge(s);
+    rep.floor("reader_backed_frames_accepted", 100);
+    rep.floor("reader_backed_corruptions_rejected", 100);
+    rep.floor("crc32_wrapper_cases", 50);
     rep.rule = "cases = (algorithm, frame, injected corruption): 10 catalogue algorithms over widths 8/16/32/64/128 (reflected and unreflected); per sampled frame every \
                 single-bit flip of the frame, corruptions confined to the checksum field, every burst pattern (first and last bit set) of length 2..width at every payload bit \
                 offset (all patterns for widths <= 16 on short frames, sampled patterns/offsets otherwise), every truncation, random multi-byte damage and random bytes; the \
